@@ -1,5 +1,5 @@
 """C03 - no stuck workflow: quiescence implies a resting status."""
-from ovf.props.common import batches, scale, ASSUME_SIM
+from ovf.props.common import batches, family_slices, scale, ASSUME_SIM
 from ovf.workloads import conduct, corpus, mon  # noqa: F401
 from ovf.props.sweeps import ctl_sweep  # noqa: F401
 
@@ -8,7 +8,7 @@ TECHNIQUE = "runtime monitoring: progress assertion at every quiescent point (no
 RULE = ("generated definitions (incl. with-items, retry, joins, loops) x hashed outcomes x seeded schedules, free and "
         "with pause/resume/cancel requests and crashes inserted at seeded positions and at every position of base "
         "histories; the four historical stuck shapes (failed with-items item, pending task, with-items in a cycle, "
-        "resume of a finished paused workflow) are generated classes; non-trivial = history that reached at least one "
+        "resume of a finished paused workflow) are generated classes; additionally the decision-shape family (exhaustive in the thorough tier, a rotating slice in the quick tier): every acyclic edge set over 4 tasks with a join x condition succeeded/failed per edge x outcome per task (4128 definitions); non-trivial = history that reached at least one "
         "quiescent point after at least one completion report; distinct = (definition, history) digest")
 ASSUMPTIONS = ASSUME_SIM + ["liveness is restated as safety at quiescent points, which is exact because the conductor never acts spontaneously"]
 
@@ -31,6 +31,8 @@ def jobs(tier, seed):
                   P=dict(P, nmax=6), modes=["pause"], name="pause-sweep")
     # the repository's own fixture definitions under generated outcomes, schedules and requests
     js += [dict(fn="corpus", parts=4, part=i, runs=scale(tier, 4, 40), gseed=seed, ctl=dict(req=0.08, max_req=3, reqs=["pausing", "paused", "resuming", "running", "canceling"]), name="corpus") for i in range(4)]
+    # decision-shape family (exhaustive in the thorough tier, a rotating slice in the quick tier): every acyclic edge set over 4 tasks with a join x condition succeeded/failed per edge x outcome per task (4128 definitions)
+    js += family_slices("ctl_sweep", 4128, 24, tier, seed, parts=6, gen="cshape", modes=["pause", "cancel"], p_fail=0.0, name="decision-shapes-sweep")
     return js
 
 
